@@ -361,3 +361,40 @@ pub fn features(p: &Pos, legal: &[Mv]) -> PosFeatures {
             }),
     }
 }
+
+/// Every legal position with the two kings and one more man (any kind, either colour, either side to
+/// move): a finite sub-space small enough to enumerate completely (~2.3 M positions).
+pub fn three_men(shard: usize, shards: usize, f: &mut dyn FnMut(&Pos)) {
+    for wk in 0..64u8 {
+        if wk as usize % shards != shard {
+            continue;
+        }
+        for bk in 0..64u8 {
+            if bk == wk || ((file_of(wk) - file_of(bk)).abs() <= 1 && (rank_of(wk) - rank_of(bk)).abs() <= 1) {
+                continue;
+            }
+            for s in 0..64u8 {
+                if s == wk || s == bk {
+                    continue;
+                }
+                for c in [Color::W, Color::B] {
+                    for k in [Kind::P, Kind::N, Kind::B, Kind::R, Kind::Q] {
+                        if k == Kind::P && (rank_of(s) == 0 || rank_of(s) == 7) {
+                            continue;
+                        }
+                        for stm in [Color::W, Color::B] {
+                            let mut p = Pos::empty();
+                            p.b[wk as usize] = Some(Pc { c: Color::W, k: Kind::K });
+                            p.b[bk as usize] = Some(Pc { c: Color::B, k: Kind::K });
+                            p.b[s as usize] = Some(Pc { c, k });
+                            p.stm = stm;
+                            if p.is_legal_position() {
+                                f(&p);
+                            }
+                        }
+                    }
+                }
+            }
+        }
+    }
+}
